@@ -21,6 +21,26 @@ def run(res, proofs_ok, proofs_why):
     if cfg is None:
         return
     wipe_part(res, binary)
+    # clause (a), the daemon dying right after a client started copying: the call gives up after its budget;
+    # every later call, the update still in flight, answers from the snapshot the client held (publication 1)
+    for prof in ("debug", "release"):
+        try:
+            out = c.run_lines(c.build_harness(prof)[0], ["stall 3"], timeout=120)[0]
+        except c.CheckError as e:
+            if "exited 124" not in str(e):
+                raise
+            out = None
+        res.evaluations += 1
+        res.count("gen:daemon dies while a client copies, the next call")
+        nxt = out.split()[4] if out and len(out.split()) > 4 else None
+        cells = [int(x) for x in nxt.split(",")] if nxt and nxt != "E" else None
+        okk = cells is not None and _shm.rec_index(cells) == 1
+        res.oblige("after a call that gave up on a daemon dead mid-update the next call returns the snapshot held before [%s]" % prof, okk)
+        if not okk:
+            res.violation({"property": "C04", "kind": "schedule", "case": {"schedule": "stall 3", "impl": out or "no return within 120 s",
+                           "why": ["the daemon died in the middle of update 3 right after the client (holding publication 1) had started to copy; the call gave up; "
+                                   "the next call must return publication 1 and returned %s" % nxt]},
+                           "predicate": "clients that had the segment open keep obtaining only complete records", "how_to_replay": "./check C18 --replay <this file>"})
     # clause (c) on files: a segment clients could open - whatever the length of the file, a file cut short
     # behind a valid header included - is taken over in place: the generation goes on from the value in the
     # file (a wipe would show as a restart from 0 -> 2)
